@@ -92,9 +92,9 @@ PROPS["C12"] = {
     "kani": lambda tier: kfam(["k_rc", "k_min_rc", "k_canon"], tier) + exts(["x_rc", "x_complement", "x_reverse"])
         + lmer(["l_rc", "l_rc_empty"], tier) + tables(["t_complement"]),
     "verus": [("dnaslice", r"^(DnaStringSlice::(rc|get|get_kmer|slice)|complement|DnaString::(get|get_kmer|slice|prefix|suffix))$")],
-    "bounded": lambda tier: [],
+    "bounded": lambda tier: [("dna_string::verif::d_rc_reverse_b_33", "DnaString::rc / reverse on a 33-base string (symbolic contents)")],
     "design_ref": "DESIGN.md §6 C12",
-    "undecided": ["DnaString::rc (body uses Peekable/rev/map adapters neither verifier reaches unboundedly): not yet covered by a bounded stand-in"],
+    "undecided": ["DnaString::rc for every length (body uses Peekable/rev/map adapters neither verifier reaches unboundedly): bounded stand-in only"],
     "trust": VERUS_TRUST + [SEAM_NOTE],
     "level_text": "k-mer rc (positional law, involution, inv), canonical form / palindrome test and Exts rc/complement/reverse are proved for all values by Kani on the real code (complete); Lmer::rc for every capacity N per fixed N (complete); slice rc/get/get_kmer under rc are proved unbounded by Verus on the extracted bodies, incl. that the i-th k-mer of the reverse complement is the rc of the mirrored window.",
     "level_note": "Trusted: Kani/CBMC, Verus/Z3, extractor rules, the V<->K seam (trait contract assumed in Verus, discharged per shipped type by Kani). DnaString::rc itself is listed under undecided_clauses.",
@@ -118,10 +118,16 @@ PROPS["C14"] = {
     "title": "Growable DNA string is a faithful sequence container",
     "kani": lambda tier: ["dna_string::verif::d_word_order"],
     "verus": [("dnastring", None), ("packedset", r"^PackedDnaStringSet::")],
-    "bounded": lambda tier: ([("dna_string::verif::d_dna_eq_ord_hash_b2", "strings of <= 64 bases (2 words)")] if tier == "thorough" else []),
+    "bounded": lambda tier: [("dna_string::verif::d_extend_b_0_33", "extend: empty prefix + 33 items"),
+                             ("dna_string::verif::d_extend_b_32_1", "extend: 32-base prefix + 1 item"),
+                             ("dna_string::verif::d_rc_reverse_b_33", "rc / reverse: 33 bases"),
+                             ("dna_string::verif::d_to_bytes_b_33", "to_bytes / to_ascii_vec: 33 bases"),
+                             ("dna_string::verif::d_packed_add_b", "PackedDnaStringSet::add x2 (5 and 3 bases) then get"),
+                             ("dna_string::verif::d_dna_eq_ord_hash_b1", "derived ==/cmp on strings of <= 32 bases")]
+        + ([("dna_string::verif::d_dna_eq_ord_hash_b2", "derived ==/cmp/Hash on strings of <= 64 bases (2 words)")] if tier == "thorough" else []),
     "design_ref": "DESIGN.md §6 C14",
-    "undecided": ["extend / from_bytes / from_dna_string / rc / reverse / to_bytes / to_ascii_vec / Display (Peekable and iterator adapters): no unbounded contract; bounded stand-ins pending",
-                  "PackedDnaStringSet::add (generic IntoIterator + Borrow): not under contract",
+    "undecided": ["extend / from_bytes / from_dna_string / rc / reverse / to_bytes / to_ascii_vec / Display (Peekable and iterator adapters): no unbounded contract; fixed-length bounded stand-ins only",
+                  "PackedDnaStringSet::add (generic IntoIterator + Borrow): bounded stand-in only",
                   "derived ==/cmp/Hash: word-level order fact complete (d_word_order); whole-string law only as a bounded stand-in (thorough)"],
     "trust": VERUS_TRUST,
     "level_text": "Data-structure contract: every DnaString operation under contract (new, with_capacity, blank, push, set_mut, get, len, is_empty, clear, push_bytes, iter/next, addr/get_by_addr/set_by_addr) is proved to preserve the representation invariant wf (exact word count, zero padding) and to transform the abstract base vector exactly as the plain-vector operation does, for all lengths (Verus, unbounded). History quantifier = induction over these per-operation contracts.",
@@ -145,9 +151,11 @@ PROPS["C16"] = {
     "title": "ASCII ingestion is total and path-independent",
     "kani": lambda tier: tables(TABLES_ALL) + ["bitops_avx2::verif::a_block"],
     "verus": [],
-    "bounded": lambda tier: [],
+    "bounded": lambda tier: [("dna_string::verif::d_from_acgt_bytes_b_31", "from_acgt_bytes on 31 bytes, vector path available and not (feature detection nondeterministic)"),
+                             ("dna_string::verif::d_to_bytes_b_33", "to_ascii_vec on 33 bases")],
     "design_ref": "DESIGN.md §6 C16",
-    "undecided": ["from_acgt_bytes chunk loop / tail composition for every length, to_ascii_vec round trip, from_dna_only_string, from_acgt_bytes_hashn: bounded stand-ins pending"],
+    "undecided": ["from_acgt_bytes chunk loop / tail composition for every length and to_ascii_vec round trip: fixed-length bounded stand-ins only",
+                  "from_dna_only_string, from_acgt_bytes_hashn: no tractable harness (str/char iteration and SipHash exhaust CBMC), not decided"],
     "trust": ["the two AVX2 intrinsic models (_mm256_shuffle_epi8, _mm256_testc_si256) follow the Intel SDM; validated natively against the CPU by `debruijn-replay --validate-avx-models`, not proved"],
     "level_text": "The six byte tables are proved for all 256 byte values and the vector path (convert_bases + pack_32_bases, real code incl. unsafe loadu) is proved equal to the scalar path on ALL 256^32 blocks, lane by lane, with the valid flag exact (Kani, complete).",
     "level_note": "Trusted: Kani/CBMC; two intrinsic models (Kani cannot translate pshufb / vptest). The chunking loop of from_acgt_bytes is not under an unbounded contract (undecided_clauses).",
@@ -203,13 +211,13 @@ PROPS["C02"] = {
     "title": "Nodes are exactly the maximal unbranched paths",
     "kani": lambda tier: kfam(["k_min_rc", "k_extend_left", "k_extend_right"], tier)
         + exts(["x_num_ext_dir", "x_get_unique_extension", "x_single_dir", "x_has_ext", "x_dir"]),
-    "verus": [("compress", None)],
+    "verus": [("compress", None), ("compgraph", r"^CompressFromGraph::|^Node::(len|data)$")],
     "bounded": lambda tier: [],
     "design_ref": "DESIGN.md §6 C02",
     "undecided": [
         "the global converse (a step refused only because the neighbour is no longer available is a legitimate boundary) and hence 'no two output nodes could be merged'; uniqueness of the decomposition",
         "build_node / compress_kmers assembling the walked path into exactly one node (sequence, payload fold, terminal extensions) - see C01",
-        "CompressFromGraph::try_extend_node / extend_node (node-level walk) are not under contract"],
+        "node level (CompressFromGraph): try_extend_node is proved sound in both directions relative to the link that find_link resolves (Unique only along an acceptable link, Terminal only if the node may not leave or the resolved link is not acceptable); the lookup result itself is only specified relationally (link_post)"],
     "trust": VERUS_TRUST + GRAPH_TRUST + [SEAM_NOTE,
         "CompressionSpec::join_test is a deterministic predicate of the two payloads (join_spec)",
         "precondition backlinks_ok: whenever a k-mer lists a base leading to a present non-palindromic neighbour, that neighbour lists at least one base on the facing side (the formal content of 'extensions reference only present k-mers'); it makes the panic!(\"unreachable\") branch provably unreachable"],
@@ -266,14 +274,14 @@ PROPS["C06"] = {
 PROPS["C09"] = {
     "title": "Graph re-compression and node censoring are exact",
     "kani": lambda tier: exts(["x_set", "x_has_ext"]),
-    "verus": [("graphfn", r"^DebruijnGraph::(fix_exts|get_valid_exts|find_link|search_kmer|get_node|len)$|^Node::")],
+    "verus": [("graphfn", r"^DebruijnGraph::(fix_exts|get_valid_exts|find_link|search_kmer|get_node|len)$|^Node::"),
+              ("compgraph", r"^CompressFromGraph::|^Node::(len|data)$")],
     "bounded": lambda tier: [],
     "design_ref": "DESIGN.md §6 C09",
-    "undecided": ["k-mer set of the result == k-mers of non-censored nodes; maximality; payload fold; idempotence; agreement with the direct route - all need build_node / sequence_of_path / the global invariant",
-                  "CompressFromGraph::try_extend_node / extend_node are not under contract"],
+    "undecided": ["k-mer set of the result == k-mers of non-censored nodes; maximality; payload fold; idempotence; agreement with the direct route - all need build_node / sequence_of_path / the global invariant"],
     "trust": VERUS_TRUST + GRAPH_TRUST + [SEAM_NOTE],
-    "level_text": "Thin claim: the two pruning calls of compress_graph - fix_exts(Some(&available)) and fix_exts(None) - are proved to leave no extension pointing at a censored/removed node or at no node, and to drop nothing else (Verus, unbounded, real bodies).",
-    "level_note": "Thin partial claim; everything about the re-compressed node set itself is listed in undecided_clauses.",
+    "level_text": "Partial claim: (1) the two pruning calls of compress_graph - fix_exts(Some(&available)) and fix_exts(None) - are proved to leave no extension pointing at a censored/removed node or at no node, and to drop nothing else; (2) CompressFromGraph::try_extend_node is proved panic-free under exactly the state fix_exts establishes (every extension resolves; available targets list an extension back) and to return Unique only along a link that find_link resolves to an available, non-palindromic, join-accepted node with a sole facing extension - naming the target, the continuation side and the far extensions - and Terminal otherwise; (3) extend_node is proved to terminate, to take exactly the start node and the walked nodes out of the available set and never to visit a node twice (Verus, unbounded, real bodies).",
+    "level_note": "Partial claim; everything about the re-compressed node SET itself (k-mer set, maximality, payload fold, idempotence) is listed in undecided_clauses. Trusted: Verus/Z3, extractor rules, abstract BoomHashMap/BitSet contracts, the V<->K seam.",
 }
 
 PROPS["C08"] = {
